@@ -121,7 +121,15 @@ func Aliases(v ssa.Value) []ssa.Value {
 type Branch struct {
 	If  *ssa.If
 	Idx int
+	// Pol: 0 = the test is exactly the predicate; +1 = the Idx edge implies
+	// the predicate but the other edge does not imply its negation (the
+	// value went through the phi of a short-circuit &&); -1 = the opposite.
+	// A guard may use a branch only when, oriented to its success edge, Pol>=0.
+	Pol int
 }
+
+// Flip returns the branch for the negated predicate.
+func (b Branch) Flip() Branch { return Branch{b.If, 1 - b.Idx, -b.Pol} }
 
 // Edge returns the CFG edge of the branch.
 func (b Branch) Edge() Edge { return Edge{b.If.Block(), b.Idx} }
@@ -139,12 +147,34 @@ func TrueBranches(v ssa.Value) []Branch {
 			switch x := r.(type) {
 			case *ssa.If:
 				if x.Cond == a {
-					out = append(out, Branch{x, 0})
+					out = append(out, Branch{x, 0, 0})
+				}
+			case *ssa.Phi:
+				// short-circuit `p && a`: phi [false, ..., a]
+				if x.Comment != "&&" {
+					continue
+				}
+				okAnd := true
+				for _, e := range x.Edges {
+					if e == a {
+						continue
+					}
+					if cb, isC := ConstBool(e); !isC || cb {
+						okAnd = false
+					}
+				}
+				if !okAnd {
+					continue
+				}
+				for _, b := range TrueBranches(x) {
+					if b.Pol >= 0 {
+						out = append(out, Branch{b.If, b.Idx, 1})
+					}
 				}
 			case *ssa.UnOp:
 				if x.Op == token.NOT {
 					for _, b := range TrueBranches(x) {
-						out = append(out, Branch{b.If, 1 - b.Idx})
+						out = append(out, b.Flip())
 					}
 				}
 			case *ssa.BinOp:
@@ -164,7 +194,7 @@ func TrueBranches(v ssa.Value) []Branch {
 					if same {
 						out = append(out, b)
 					} else {
-						out = append(out, Branch{b.If, 1 - b.Idx})
+						out = append(out, b.Flip())
 					}
 				}
 			}
@@ -194,7 +224,7 @@ func NilBranches(v ssa.Value) []Branch {
 				if x.Op == token.EQL {
 					out = append(out, b)
 				} else {
-					out = append(out, Branch{b.If, 1 - b.Idx})
+					out = append(out, b.Flip())
 				}
 			}
 		}
@@ -210,7 +240,7 @@ func EqBranches(x *ssa.BinOp) []Branch {
 		if x.Op == token.EQL {
 			out = append(out, b)
 		} else if x.Op == token.NEQ {
-			out = append(out, Branch{b.If, 1 - b.Idx})
+			out = append(out, b.Flip())
 		}
 	}
 	return out
